@@ -38,6 +38,9 @@ Fixpoint mem_N (c : N) (l : list N) : bool :=
 (** Rust [char::is_control]: general category Cc. *)
 Definition is_control (c : N) : bool := (c <=? 31) || ((127 <=? c) && (c <=? 159)).
 
+(** Rust [char::is_ascii_control]: U+0000..U+001F and U+007F. *)
+Definition is_ascii_control (c : N) : bool := (c <=? 31) || (c =? 127).
+
 (** First matching arm decides, as in a Rust [match]. [None] = the character is let through. *)
 Fixpoint arm_verdict (a : list screen_arm) (c : N) : option lexerr :=
   match a with
@@ -45,6 +48,7 @@ Fixpoint arm_verdict (a : list screen_arm) (c : N) : option lexerr :=
   | ArmAllow cs :: r => if mem_N c cs then None else arm_verdict r c
   | ArmReject k cs :: r => if mem_N c cs then Some (mk_screen_err k c) else arm_verdict r c
   | ArmControl k :: r => if is_control c then Some (mk_screen_err k c) else arm_verdict r c
+  | ArmAsciiControl k :: r => if is_ascii_control c then Some (mk_screen_err k c) else arm_verdict r c
   | ArmWild :: _ => None
   end.
 
